@@ -91,6 +91,22 @@ def pdf_chain(prog, rep):
         okr = t[2][0] in bases and ax in (("const", -1), ("const", 1)) and set(dict(t[3])) == {"axis"}
     rep.check(okr, "C06.chain", f"{fn.qualname}:product", fn.where(ret[-1]) if ret else fn.where(), "return prod(fs, axis=-1) of the whole factor matrix",
               f"the joint density must be the product over the last axis of the complete factor matrix; found {show(t)[:120] if t else None}")
+    # every column that enters the product has been written: the factor matrix has one column per column of the points, the chain
+    # writes the columns 0 .. n_dim-1 - points with more columns would multiply uninitialised memory into the density
+    nd = ("attr", SELF, "n_dim")
+    pcs = path_conditions(prog, fn, b)
+    cfg = cfg_of(fn)
+    base = next(iter(bases)) if len(bases) == 1 else None
+    sized = base is not None and base[0] == "call" and base[1] in (G("numpy.empty"), G("numpy.zeros"), G("numpy.ones")) and any(w == nd for w in walk(base[2][0] if base[2] else ("const", None)))
+    guard = False
+    for st in cfg.all_stmts():
+        if isinstance(st, ast.Raise) and ret:
+            for l in pcs.of(st):
+                if l[0] == "not" and l[1][0] == "cmp" and l[1][1] == "==" and nd in (l[1][2], l[1][3]) and any(w[0] == "attr" and w[2] == "shape" for w in walk(l[1])):
+                    guard = guard or cfg.dominates(cfg.node(cfg.enclosing(st)[0][0]), cfg.node(ret[-1]))
+    rep.check(sized or guard, "C06.chain", f"{fn.qualname}:columns", fn.where(), "the factor matrix has exactly n_dim columns (points with another number of columns are rejected)",
+              "the factor matrix takes its number of columns from the points and only the columns 0..n_dim-1 are written: model.pdf of points with an extra column "
+              "multiplies uninitialised memory into the density (identical rows gave values from 5.96e-311 to 0.894)")
 
 
 def float_buffers(prog, rep):
@@ -332,11 +348,20 @@ def argorder(prog, rep):
         rep.analysed(fn)
         b = builder(prog, fn)
         ao = _integral_func(prog, rep, q, name)
-        okao = ao is not None and ao[0] == "bin" and ao[1] == "+" and ao[3] == ("list", (P("dim"),)) and ao[2] in (rng, rev)
+        # the index may be normalised first: range(n_dim)[dim] is dim for 0 <= dim < n_dim and n_dim + dim for a negative one
+        NORM = ("sub", ("call", G("range"), (nd,), ()), P("dim"))
+        DIM = NORM if ao is not None and mentions(ao, NORM) else P("dim")
+        okao = ao is not None and ao[0] == "bin" and ao[1] == "+" and ao[3] == ("list", (DIM,)) and ao[2] in (rng, rev)
+        # a raw negative dim sorts BEFORE every other dimension in np.argsort(order + [dim]): the evaluation point is then fed to variable 0
+        pcs_ = path_conditions(prog, fn, b)
+        guarded_ = any(isinstance(st_, ast.Raise) and any(l_ in (("cmp", "<", P("dim"), ("const", 0)),) for l_ in pcs_.of(st_)) for st_ in cfg_of(fn).all_stmts())
+        rep.check(DIM == NORM or guarded_, "C06.argorder", f"{q}:dim", fn.where(), "dim is normalised (range(n_dim)[dim]) before it is placed in the argument order",
+                  "dim is placed in the argument order as passed: dim = -1 (the last variable, accepted by marginal_icdf and by Python indexing) sorts before 0, so "
+                  "marginal_pdf([8.], -1) / marginal_cdf([8.], -1) evaluate variable 0 at 8 and integrate over the wrong variable")
         if ao is not None:
           rep.check(okao, "C06.argorder", f"{q}:order", fn.where(), "arg_order = <other dims> + [dim]",
                   f"the marginalised dimension must come last in arg_order (it is the argument nquad appends / integrates last); found {show(ao)[:140] if ao else None}")
-        d = _has_del(fn, "integral_order", P("dim"), b)
+        d = _has_del(fn, "integral_order", DIM, b)
         rep.check(d is not None, "C06.argorder", f"{q}:others", fn.where(d) if d else fn.where(), "dim removed from the list of integrated dimensions",
                   "the list of integrated dimensions must have dim removed (del integral_order[dim]) so that arg_order is a permutation of range(n_dim)")
         okc = False
@@ -377,8 +402,9 @@ def delegate(prog, rep):
         arg = [p for p in fn.positional_params if p != "self"][0]
         found = False
         for st in cfg_of(fn).all_stmts():
-            if isinstance(st, ast.Return) and st.value is not None and ("isnone", ("sub", cond, P("dim"))) in pcs.of(st):
-                t = b.term(st.value, st)
+            NORM = ("sub", ("call", G("range"), (("attr", SELF, "n_dim"),), ()), P("dim"))
+            if isinstance(st, ast.Return) and st.value is not None and (("isnone", ("sub", cond, P("dim"))) in pcs.of(st) or ("isnone", ("sub", cond, NORM)) in pcs.of(st)):
+                t = subst(b.term(st.value, st), {NORM: P("dim")})
                 a0 = t[2][0] if t[0] == "call" and t[2] else None
                 okarg = a0 in (P(arg), ("call", G("numpy.array"), (P(arg),), ()), ("call", G("numpy.asarray"), (P(arg),), ()))
                 ok = t[0] == "call" and t[1] == ("attr", ("sub", dists, P("dim")), meth) and okarg and len(t[2]) == 1 and not t[3]
